@@ -306,9 +306,17 @@ Definition rec_finalize (d : dsum) (m1 : hdrm) (rr : bool) : acc :=
     a_sync b (d_same (a_st b) m1 (if q_changed then true else d_vq d) None)
   else a0.
 
+(* slot Q's checksum bit after a header write m: unchanged bytes keep it; the slot recovery may write over Q
+   outside a commit is the copy of the (valid) primary that erases a rolled back commit *)
+Definition vq_after (d : dsum) (m : hdrm) : bool :=
+  if bytes_eqb (hm_slot m (negb (d_p d))) (dQ d) then d_vq d else true.
+
 (* Database::new, quick path: load_allocator_state clears recovery_required in memory; begin_writable *)
 Definition rec_quick (a1 : acc) (m1 : hdrm) : acc :=
-  run_begin_writable (a_mem a1 (set_rr m1 false) false false).
+  let a := a_mem a1 (set_rr m1 false) false false in
+  let m := set_rr (p_mem (a_st a)) true in
+  let b := a_issue a [hdr_write m] in
+  a_mem (a_sync b (d_same (a_st b) m (vq_after (p_d (a_st a)) m) None)) m false true.
 
 (* Database::new, full repair with the verifying primary m2: clear_recovery_required; the repair commit
    (two-phase, ShrinkPolicy::Never, no page writes, the pages of the served commit); begin_writable *)
@@ -316,7 +324,7 @@ Definition rec_full (a1 : acc) (m2 : hdrm) (q : bytes) (rng : list range) : acc 
   let a1' := a_mem a1 m2 false false in          (* repair_primary_corrupted: in memory only *)
   let m3 := set_rr m2 false in
   let a2 := a_issue a1' [hdr_write m3] in
-  let a3 := a_mem (a_sync a2 (d_same (a_st a2) m3 (d_vq (p_d (a_st a2))) None)) m3 false false in
+  let a3 := a_mem (a_sync a2 (d_same (a_st a2) m3 (vq_after (p_d (a_st a1')) m3) None)) m3 false false in
   run_begin_writable (run_commit a3 true q rng [] None).
 
 Definition recovery_run (d : dsum) (o : roracle) : option acc :=
